@@ -765,6 +765,19 @@ fn exec_twin(out: &mut Out, line: &str, w: &[&str]) -> (String, bool) {
             }
         }
     }
+    // `with_handler` (JsonTypedAdapter) must gate body formats like `with_typed` does for the same input type
+    if kind == "adapter" {
+        if let Some(tr) = twin_router("typed", false, ok, code, 0, 0, &counts, &seen) {
+            if let Some(th) = tr.get(TWIN_PATH) {
+                let is_gate_rej = |r: &Result<Result<Message, RepeError>, String>| matches!(r, Ok(Ok(m)) if m.header.ec == 4 && m.body.starts_with(b"Expected"));
+                let a = catch(|| hp.handle(&req));
+                let t = catch(|| th.handle(&req));
+                if is_gate_rej(&a) != is_gate_rej(&t) {
+                    out.oracle_fail("router.twin.adapter.gate_differs_from_typed", &format!("body format {}: with_handler {} the body format, with_typed {}", bfmt, if is_gate_rej(&a) { "rejects" } else { "accepts" }, if is_gate_rej(&t) { "rejects" } else { "accepts" }), &ops);
+                }
+            }
+        }
+    }
     let exec = exec_name(hw.execution());
     if blocking && exec != "offreader" {
         out.oracle_fail("router.twin.execution_lost", &format!("blocking handler behind {} middleware reports {}", nmw, exec), &ops);
@@ -890,6 +903,33 @@ fn exec_dstruct(out: &mut Out, ds: &mut DState, line: &str, w: &[&str]) -> (Stri
         }
     };
     out.count(&format!("dstruct.{}", obs.split(' ').next().unwrap()));
+    // ---- direct oracle: hand-written expectation per endpoint of `Demo` (not the model): what kind of
+    // endpoint the relative path names decides the class of the answer
+    {
+        let nroot = if root.is_empty() || root == "/" { String::new() } else if root.starts_with('/') { root.clone() } else { format!("/{}", root) };
+        let rel = &path[nroot.len().min(path.len())..];
+        let decodable = body.is_empty() || ((bfmt == 2 || bfmt == 3) && serde_json::from_slice::<Value>(&body).is_ok());
+        if decodable {
+            let has_body = !body.is_empty();
+            let want: Option<&str> = match rel {
+                "" | "/inner" | "/inner/deep" => Some(if has_body { "err 4" } else { "whole" }), // whole write of a non-object: serde rejects
+                "/a" | "/inner/x" | "/inner/deep/z" => Some("ok"),
+                "/ro" => Some(if has_body { "err 4" } else { "ok" }),
+                "/echo" => Some(if has_body { "ok" } else { "err 4" }),
+                "/ping" | "/touch" => Some("ok"),
+                "/" | "/nope" | "/inner/nope" | "/inner//x" | "/a~0" | "/inner~1x" => Some("err 6"),
+                "/a/" | "/a/b" | "/inner/deep/z/q" | "/ping/x" => Some("err 6"),
+                r if r.starts_with("/inner/deep/z/1/") => Some("err 6"),
+                _ => None,
+            };
+            if let Some(w) = want {
+                let got = if obs.starts_with("ok ") { "ok" } else { obs.as_str() };
+                if got != w {
+                    out.oracle_fail("router.derive.semantics", &format!("derived struct at {:?}, path {:?} ({}): answered {:?}, the endpoint kind says {:?}", root, path, if has_body { "with body" } else { "no body" }, obs, w), &ops);
+                }
+            }
+        }
+    }
     // ---- direct oracle: read-after-write, keyed by the relative path text (independent of the model)
     let norm_root = if root.is_empty() || root == "/" { String::new() } else if root.starts_with('/') { root.clone() } else { format!("/{}", root) };
     let rel = path[norm_root.len().min(path.len())..].to_string();
